@@ -5,8 +5,8 @@ from ..interp_prop import InterpProp
 
 class C03(InterpProp):
     id = 'C03'
-    quick_cases = 200
-    thorough_cases = 4000
+    quick_cases = 1000
+    thorough_cases = 40000
     n_ops = 36
     rule = ('random well-formed charts with entry/exit/action code on most objects (deep orthogonal nesting) × '
             'histories; oracle: the evaluator-call log (exit/action/entry, in order) equals the replay of the '
